@@ -50,6 +50,12 @@ Inductive case :=
    [iu] before [ur]; the client saw the informational responses [ic] before [cl] *)
 | CFwd1xx (o : route_opts) (q : request) (up : option upstream) (iu : list response) (ur : response)
           (ic : list response) (cl : response)
+(* CFwd (recorder) under a proxy configuration with a request-id header: ServeHTTP first sets
+   header [reqid] to [uuid] (fabio's own header, by configuration), then proceeds as usual *)
+| CFwdCfg (reqid uuid : str) (o : route_opts) (q : request) (up : option upstream) (ur cl : response)
+(* the other ways out of ServeHTTP: [kind] as in Model.HttpFwd.exit_status; [code] = the route's
+   redirect code; observed: whether an upstream round trip was started, client's status *)
+| CExit (kind : N) (code : Z) (contacted : bool) (status : Z)
 (* Upgrade: websocket over real sockets: what the upstream connection was sent first
    (method, request target, Host); None = no upstream connection *)
 | CWs (o : route_opts) (q : request) (up : option (str * str * str))
@@ -66,29 +72,45 @@ Definition obs_eqb (a b : str * str * str * bool * str * str) : bool :=
   beq a1 b1 && beq a2 b2 && beq a3 b3 && Bool.eqb a4 b4 && beq a5 b5 && beq a6 b6.
 
 (* a routed request; [same_x]/[spec_x]: further observables of group B (informational responses) *)
-Definition check_fwd (wire : bool) (o : route_opts) (q : request) (up : option upstream)
+(* an absolute-form request target is reduced to its origin-form part (Model.UrlPathC07.origin_form) *)
+Definition in_origin_form (q : request) : request :=
+  {| rq_method := rq_method q; rq_target := origin_form (rq_target q); rq_host := rq_host q;
+     rq_headers := rq_headers q; rq_body := rq_body q |}.
+
+(* non-trivial = the case exercises something the property quantifies over beyond a plain GET:
+   an option touches the path, the raw path is not in canonical encoding, a query is merged, the
+   host option is set, a hop-by-hop or Connection-listed header is present, or there is a body *)
+Definition fwd_nontrivial (o : route_opts) (q : request) : bool :=
+  let raw := raw_path_of (rq_target q) in
+  opts_touch_path o raw || negb (canonical_raw raw) || nonempty (ro_tquery o) || nonempty (ro_host o)
+  || existsb (fun kv => is_hop (rq_headers q) (fst kv)) (rq_headers q) || nonempty (rq_body q).
+
+Definition check_fwd (wire : bool) (o : route_opts) (q0 : request) (up : option upstream)
            (ur cl : response) (same_x spec_x : bool) : N :=
+      let q := in_origin_form q0 in
+      let nt := fwd_nontrivial o q in
       let drop := if wire then wire_resp_drop else [] in
       (* two groups of observables, judged separately so that a known defect in one (or its
          repair) never hides or excuses a difference in the other:
-         A = the request target (regions 1, 2); B = method, Host, headers, body, response (region 3) *)
+         A = the request target (regions 1, 2); B = method, Host, headers, body, response (region 4) *)
       match forward wire o q, up with
       | Ok mu, Some u =>
           let sameA := beq (up_target u) (up_target mu) in
           let specA := beq (up_target u) (spec_target o (rq_target q)) in
           let regionA := if region_strip_encoding o (rq_target q) then Some 1
                          else if region_invalid_byte o (rq_target q) then Some 2 else None in
-          let vA := verdict sameA specA regionA true in
+          let vA := verdict sameA specA regionA nt in
           let no_target x := {| up_method := up_method x; up_target := []; up_host := up_host x;
                                 up_headers := up_headers x; up_body := up_body x |} in
           let sameB := upstream_eqb (proj_up (no_target u)) (proj_up (no_target mu))
                        && response_eqb (proj_resp drop cl) (proj_resp drop (respond ur)) && same_x in
           let specB := spec_forward_rest o q u && spec_response drop ur cl && spec_x in
-          let regionB : option N := None in
-          let vB := verdict sameB specB regionB true in
+          let regionB := if wire && region_ua_wire q then Some 4 else None in
+          let vB := verdict sameB specB regionB nt in
           let bad v := (2 <=? v) && (v <=? 4) in
           if bad vA then vA else if bad vB then vB
-          else if 100 <=? vA then vA else if 100 <=? vB then vB else v_agree
+          else if 100 <=? vA then vA else if 100 <=? vB then vB
+          else if nt then v_agree else v_agree_trivial
       | Ok _, None => v_disagree_spec_fails   (* a routed request must reach its upstream *)
       | _, _ => v_disagree   (* the harness only emits requests net/http accepted *)
       end.
@@ -105,12 +127,13 @@ Definition check_case (c : case) : N :=
                   end in
       verdict (out_eqb beq impl m) spec None (existsb (N.eqb 37) s)
   | CParse t impl =>
-      let m := match parse_target t with Ok p => Ok (parse_obs p) | Err k => Err k | Panic => Panic end in
+      let m := match parse_target (origin_form t) with Ok p => Ok (parse_obs p) | Err k => Err k | Panic => Panic end in
       (* spec: an accepted origin-form target whose path is made of URI path bytes is reproduced
          byte for byte by RequestURI(); any other still denotes the same decoded path *)
       let spec := match impl with
                   | Ok (path, _, _, _, ep, ru) =>
-                      if valid_encoded (raw_path_of t) then beq ru t else out_is (unescape ep) path
+                      if valid_encoded (raw_path_of (origin_form t)) then beq ru (origin_form t)
+                      else out_is (unescape ep) path
                   | Err _ => true
                   | Panic => false
                   end in
@@ -123,22 +146,40 @@ Definition check_case (c : case) : N :=
       verdict same spec None (nonempty rawpath)
   | CFwd wire o q up ur cl => check_fwd wire o q up ur cl true true
   | CFwd1xx o q up iu ur ic cl =>
-      let pr := map (proj_resp wire_resp_drop) in
+      (* "100 Continue" is the per-hop handshake of Expect: 100-continue (each net/http server on the
+         way answers it itself, RFC 7231 5.1.1): not an upstream response that is passed through *)
+      let pr l := map (proj_resp wire_resp_drop) (filter (fun r => negb (rs_status r =? 100)%Z) l) in
       let same_x := list_eqb response_eqb (pr ic) (pr (fst (respond_all iu ur))) in
       (* spec: the same informational responses, in order, with the same status and headers *)
       let spec_x := list_eqb (fun a b => (rs_status a =? rs_status b)%Z
                                          && header_eqb (rs_headers a) (rs_headers b)) (pr ic) (pr iu) in
       check_fwd true o q up ur cl same_x spec_x
-  | CWs o q up =>
+  | CFwdCfg reqid uuid o q up ur cl =>
+      let q' := {| rq_method := rq_method q; rq_target := rq_target q; rq_host := rq_host q;
+                   rq_headers := if nonempty reqid then hset reqid uuid (rq_headers q) else rq_headers q;
+                   rq_body := rq_body q |} in
+      check_fwd false o q' up ur cl true true
+  | CExit kind code contacted status =>
+      let ok := Bool.eqb contacted (exit_contacts kind) && (status =? exit_status kind code)%Z in
+      verdict ok ok None true
+  | CWs o q0 up =>
+      let q := in_origin_form q0 in
       match ws_forward o q, up with
       | Ok (mm, mt, mh), Some (im, it, ih) =>
+          (* the path part (regions 1, 2) and the query part (region 5) of the request target *)
+          let path_of x := fst (cut_q x) in
+          let query_of x := skipn (length (path_of x)) x in
+          let st := spec_target o (rq_target q) in
           let regionA := if region_strip_encoding o (rq_target q) then Some 1
                          else if region_invalid_byte o (rq_target q) then Some 2 else None in
-          let vA := verdict (beq it mt) (beq it (spec_target o (rq_target q))) regionA true in
+          let vA := verdict (beq (path_of it) (path_of mt)) (beq (path_of it) (path_of st)) regionA true in
+          let regionQ := if region_ws_lone_q (rq_target q) then Some 5 else None in
+          let vQ := verdict (beq (query_of it) (query_of mt)) (beq (query_of it) (query_of st)) regionQ true in
           let vB := verdict (beq im mm && beq ih mh)
                             (beq im (rq_method q) && beq ih (spec_host o (rq_host q))) None true in
           let bad v := (2 <=? v) && (v <=? 4) in
-          if bad vA then vA else if bad vB then vB else if 100 <=? vA then vA else v_agree
+          if bad vA then vA else if bad vQ then vQ else if bad vB then vB
+          else if 100 <=? vA then vA else if 100 <=? vQ then vQ else v_agree
       | Ok _, None => v_disagree_spec_fails
       | _, _ => v_disagree
       end
